@@ -702,6 +702,254 @@ def translate_sites(files):
 
 
 # ------------------------------------------------------------------------------------
+# abstraction of the spec parsers to the operations of the verified aliasing analysis (Taint.v)
+
+PARSER_FAMILY = {
+    "conditions.py": {"ConditionLike": ["from_spec", "from_json_like"]},
+    "datapath.py": {"DataPath": ["from_spec", "from_json_like", "from_part_specs"], "ContainerValue": ["from_spec"]},
+    "rules.py": {"Rule": ["from_spec", "from_json_like"]},
+    "schema.py": {"Schema": ["from_json_like", "init_rules"]},
+}
+FAMILY_NAMES = {"from_spec", "from_json_like", "from_part_specs", "init_rules"}
+READ_METHODS = {"items", "keys", "values", "get", "split", "lower", "upper", "startswith", "endswith", "replace", "strip",
+                "format", "join", "count", "index", "copy", "is_like", "flatten"}
+PURE_CALLS = {"len", "isinstance", "getattr", "hasattr", "enumerate", "zip", "next", "iter", "str", "int", "float", "bool",
+              "type", "repr", "any", "all", "sum", "range", "print", "sorted", "reversed", "min", "max", "get_func_args_by_kind"}
+SHALLOW_CALLS = {"dict", "list", "tuple", "set"}
+
+
+class Abstractor:
+    """Python function body -> list of Taint items.  Conservative: anything not recognised as harmless is an
+    OpStore (a write below the top level) on every variable it mentions."""
+
+    def __init__(self, fn):
+        self.fn = fn
+
+    @staticmethod
+    def names(e):
+        out = []
+        for n in ast.walk(e):
+            if isinstance(n, ast.Name) and n.id not in out and not n.id[:1].isupper() and n.id not in PURE_CALLS \
+                    and n.id not in SHALLOW_CALLS and n.id not in ("copy", "cnds", "valida", "warnings", "cls", "self"):
+                out.append(n.id)
+        return out
+
+    def vlist(self, vs):
+        return coq_list([qs(v) for v in vs])
+
+    def assign_op(self, target, value):
+        """x = value"""
+        ns = self.names(value)
+        if isinstance(value, ast.Call):
+            f = value.func
+            if isinstance(f, ast.Attribute) and isinstance(f.value, ast.Name) and f.value.id == "copy":
+                if f.attr == "deepcopy":
+                    return f"OpDeep {qs(target)} {self.vlist(ns)}"
+                if f.attr == "copy":
+                    return f"OpShallow {qs(target)} {self.vlist(ns)}"
+            if isinstance(f, ast.Name) and f.id in SHALLOW_CALLS:
+                return f"OpShallow {qs(target)} {self.vlist(ns)}"
+        if isinstance(value, (ast.List, ast.Dict, ast.Set, ast.Tuple, ast.ListComp, ast.DictComp, ast.SetComp)):
+            return f"OpShallow {qs(target)} {self.vlist(ns)}"
+        if isinstance(value, (ast.Constant, ast.JoinedStr, ast.Compare, ast.BoolOp)) and not ns:
+            return f"OpFresh {qs(target)}"
+        if isinstance(value, (ast.JoinedStr, ast.Compare)):
+            return f"OpFresh {qs(target)}"
+        return f"OpAlias {qs(target)} {self.vlist(ns)}"
+
+    def effects(self, node):
+        """Writes performed by evaluating an expression / executing a simple statement (besides binding names)."""
+        ops = []
+        for n in ast.walk(node):
+            if isinstance(n, ast.Call):
+                f = n.func
+                argnames = []
+                for a in list(n.args) + [k.value for k in n.keywords]:
+                    argnames += self.names(a)
+                if isinstance(f, ast.Attribute):
+                    recv = f.value
+                    if f.attr in MUTATORS:
+                        b = recv
+                        depth = 0
+                        while isinstance(b, (ast.Attribute, ast.Subscript)):
+                            b = b.value
+                            depth += 1
+                        if isinstance(b, ast.Name):
+                            ops.append(f"OpStore {qs(b.id)} {E.enc_bool(depth == 0)} {self.vlist(argnames)}")
+                        else:
+                            refuse(n, "mutating call on a non-variable")
+                    elif f.attr in READ_METHODS or f.attr in FAMILY_NAMES or f.attr[:1].isupper() or f.attr in ("warn", "deepcopy", "copy"):
+                        pass        # reads; calls of the parser family (each checked safe on its own); constructors
+                    elif isinstance(recv, ast.Name) and recv.id in ("cls", "cnds", "valida"):
+                        pass
+                    else:
+                        # an unknown method: assume it may write anything reachable from its receiver and arguments
+                        for v in self.names(recv) + argnames:
+                            ops.append(f"OpStore {qs(v)} false {self.vlist(argnames)}")
+                elif isinstance(f, ast.Name):
+                    if f.id in PURE_CALLS or f.id in SHALLOW_CALLS or f.id[:1].isupper() or f.id in ("cls", "cond_method"):
+                        pass        # builtins that only read; constructors (they keep references, they do not write)
+                    else:
+                        for v in argnames:
+                            ops.append(f"OpStore {qs(v)} false {self.vlist(argnames)}")
+                elif isinstance(f, ast.Call):
+                    pass            # getattr(obj, name)(): a modifier method of a freshly built path
+                else:
+                    refuse(n, "call target shape")
+        return ops
+
+    def simple(self, s):
+        ops = []
+        if isinstance(s, (ast.Assign, ast.AnnAssign)):
+            value = s.value
+            targets = s.targets if isinstance(s, ast.Assign) else [s.target]
+            ops += self.effects(value)
+            for t in targets:
+                if isinstance(t, ast.Name):
+                    ops.append(self.assign_op(t.id, value))
+                elif isinstance(t, (ast.Tuple, ast.List)):
+                    for x in t.elts:
+                        if not isinstance(x, ast.Name):
+                            refuse(s, "nested assignment target")
+                        ops.append(f"OpAlias {qs(x.id)} {self.vlist(self.names(value))}")
+                elif isinstance(t, (ast.Subscript, ast.Attribute)):
+                    b, depth = t, 0
+                    while isinstance(b, (ast.Attribute, ast.Subscript)):
+                        b = b.value
+                        depth += 1
+                    if not isinstance(b, ast.Name):
+                        refuse(s, "store through a non-variable")
+                    ops.append(f"OpStore {qs(b.id)} {E.enc_bool(depth == 1)} {self.vlist(self.names(value))}")
+                else:
+                    refuse(s, "assignment target")
+        elif isinstance(s, ast.AugAssign):
+            ops += self.effects(s.value)
+            if isinstance(s.target, ast.Name):
+                ops.append(f"OpStore {qs(s.target.id)} true {self.vlist(self.names(s.value))}")
+                ops.append(f"OpAlias {qs(s.target.id)} {self.vlist([s.target.id] + self.names(s.value))}")
+            else:
+                refuse(s, "augmented store")
+        elif isinstance(s, ast.Delete):
+            for t in s.targets:
+                b, depth = t, 0
+                while isinstance(b, (ast.Attribute, ast.Subscript)):
+                    b = b.value
+                    depth += 1
+                if isinstance(b, ast.Name) and depth >= 1:
+                    ops.append(f"OpStore {qs(b.id)} {E.enc_bool(depth == 1)} []")
+        elif isinstance(s, (ast.Expr, ast.Return, ast.Raise, ast.Assert)):
+            for f_ in ("value", "exc", "test"):
+                v = getattr(s, f_, None)
+                if v is not None:
+                    ops += self.effects(v)
+        elif isinstance(s, (ast.Pass, ast.Break, ast.Continue, ast.Import, ast.ImportFrom)):
+            pass
+        else:
+            refuse(s, "simple statement form")
+        return ops
+
+    def nested(self, s):
+        """All operations of a compound statement, flattened (they may run in any order, any number of times)."""
+        ops = []
+        if isinstance(s, ast.For):
+            ops += self.effects(s.iter)
+            for x in ast.walk(s.target):
+                if isinstance(x, ast.Name):
+                    ops.append(f"OpAlias {qs(x.id)} {self.vlist(self.names(s.iter))}")
+            body = s.body + s.orelse
+        elif isinstance(s, ast.While):
+            ops += self.effects(s.test)
+            body = s.body + s.orelse
+        elif isinstance(s, ast.If):
+            ops += self.effects(s.test)
+            body = s.body + s.orelse
+        elif isinstance(s, ast.Try):
+            body = s.body + s.orelse + s.finalbody
+            for h in s.handlers:
+                body = body + h.body
+        elif isinstance(s, ast.With):
+            body = s.body
+            for it in s.items:
+                ops += self.effects(it.context_expr)
+                if it.optional_vars is not None:
+                    for x in ast.walk(it.optional_vars):
+                        if isinstance(x, ast.Name):
+                            ops.append(f"OpFresh {qs(x.id)}")
+        else:
+            return None
+        for b in body:
+            sub = self.nested(b)
+            ops += sub if sub is not None else self.simple(b)
+        # comprehension variables inside the block
+        return ops
+
+    @staticmethod
+    def terminates(body):
+        return bool(body) and isinstance(body[-1], (ast.Raise, ast.Return))
+
+    def seq(self, body):
+        out = []
+        for s in body:
+            if isinstance(s, ast.Expr) and isinstance(s.value, ast.Constant):
+                continue
+            if isinstance(s, ast.If) and self.terminates(s.body) and not any(isinstance(x, ast.If) and False for x in s.body):
+                # `if c: ...; raise/return` [else: rest]: on every path that continues, the else branch ran exactly once
+                out.append("Block " + coq_list(["(" + o + ")" for o in (self.effects(s.test) + self.block_ops(s.body))]))
+                out += self.seq(s.orelse)
+                continue
+            sub = self.nested(s)
+            if sub is not None:
+                out.append("Block " + coq_list(["(" + o + ")" for o in sub]))
+            else:
+                for o in self.simple(s):
+                    out.append(f"Straight ({o})")
+        return out
+
+    def block_ops(self, body):
+        ops = []
+        for b in body:
+            sub = self.nested(b)
+            ops += sub if sub is not None else self.simple(b)
+        return ops
+
+    def items(self):
+        params = {a.arg for a in self.fn.args.args}
+        if self.fn.args.vararg:
+            params.add(self.fn.args.vararg.arg)
+        if self.fn.args.kwarg:
+            params.add(self.fn.args.kwarg.arg)
+        local = []
+        for n in ast.walk(self.fn):
+            if isinstance(n, ast.Name) and isinstance(n.ctx, ast.Store) and n.id not in params and n.id not in local:
+                local.append(n.id)
+        # a local that has not been assigned yet holds no object: start every local as fresh
+        return [f"Straight (OpFresh {qs(v)})" for v in sorted(local)] + self.seq(self.fn.body)
+
+
+def translate_parsers():
+    rows = []
+    for rel, classes in PARSER_FAMILY.items():
+        tree = ast.parse(read("valida/" + rel))
+        for n in tree.body:
+            if isinstance(n, ast.ClassDef) and n.name in classes:
+                for m in n.body:
+                    if isinstance(m, ast.FunctionDef) and m.name in classes[n.name]:
+                        params = [a.arg for a in m.args.args if a.arg not in ("cls", "self")]
+                        if m.args.vararg:
+                            params.append(m.args.vararg.arg)
+                        if m.args.kwarg:
+                            params.append(m.args.kwarg.arg)
+                        items = Abstractor(m).items()
+                        rows.append(f"  {{| af_name := {qs(rel[:-3] + '.' + n.name + '.' + m.name)}; af_params := {coq_list([qs(p) for p in params])};\n"
+                                    f"     af_body := {coq_list(items)} |}}")
+                        classes[n.name] = [x for x in classes[n.name] if x != m.name]
+        missing = [(c, ms) for c, ms in classes.items() if ms]
+        if missing:
+            raise Refused(f"parser functions not found in {rel}: {missing}")
+    return "Definition parser_funs : list afun := [\n" + ";\n".join(rows) + "\n].\n"
+
+
+# ------------------------------------------------------------------------------------
 
 HEADER = """(* GENERATED by harness/translate.py from {src} -- do not edit *)
 From Coq Require Import ZArith NArith List Bool String.
@@ -761,6 +1009,18 @@ def main():
             "Local Open Scope string_scope.\n\n" + sites)
     if write_if_changed(os.path.join(GEN_DIR, "SitesGen.v"), text):
         changed.append("SitesGen.v")
+    import copy as _copy
+    global PARSER_FAMILY
+    fam = _copy.deepcopy(PARSER_FAMILY)
+    try:
+        parsers = translate_parsers()
+    finally:
+        PARSER_FAMILY = fam
+    text = ("(* GENERATED by harness/translate.py: the spec parsers abstracted to the operations of the aliasing analysis\n"
+            "   (Taint.v) -- do not edit *)\nFrom Coq Require Import List String Bool.\nFrom Valida Require Import Taint.\n"
+            "Import ListNotations.\nLocal Open Scope string_scope.\n\n" + parsers)
+    if write_if_changed(os.path.join(GEN_DIR, "ParsersGen.v"), text):
+        changed.append("ParsersGen.v")
     return changed
 
 
